@@ -46,6 +46,8 @@ def obligations(tier, ctx):
     for sels in ([0, 1], [2, 3, 0]) if tier == "quick" else ([0, 1], [2, 3, 0], [], [1, 1, 4, 0]):
         obs.append(Ob(name="transport_date_" + "".join(map(str, sels)), params=[("s", "str")], pre=date_pre("s"),
                       call=f"H.transport_date(s, {sels!r})", backend="P", timeout=300, family="transport / symbolic date"))
+    obs.append(Ob(name="after_handshake", params=[("v", "int"), ("f", "int"), ("a", "int")], pre=["0 <= v <= 7", "-1 <= f <= 7", "0 <= a <= 4"],
+                  call="H.after_handshake(v, f, [a, 0, 1])", backend="P", timeout=400, family="batch after a real handshake (tracked client), listed and unlisted versions"))
     obs.append(Ob(name="repeat", params=[("v", "int"), ("a", "int"), ("b", "int")], pre=["0 <= v <= 8", "0 <= a <= 4", "0 <= b <= 4"],
                   call="H.repeat(v, [a, 0], [1, b], [a])", backend="P", timeout=300, family="several batches under one negotiated version"))
     pairs = [(0, 3), (2, 3), (3, 2), (4, 5)] if tier == "quick" else [(0, 3), (2, 3), (3, 2), (4, 5), (5, 4), (1, 7), (7, 0), (3, 3), (8, 6)]
